@@ -67,6 +67,7 @@ class NsRun:
         self.unexplained = []     # (target, trace events up to the failing one, why)
         self.kf_used = set()
         self.spec_mismatch = []
+        self.only = None          # when set: only the non-conforming steps it accepts are judged (C07)
 
     def close(self):
         self.sc.cleanup()
@@ -118,6 +119,8 @@ class NsRun:
             self.cov["kernel_edges_confirming_spec"] += st["OK"] + len(traces) - nun
             return
         traces = [b["trace"] for b in bad if b.get("trace")]
+        if self.only:
+            traces = [t for t in traces if self.only(t)]
         self.cov.setdefault("edges_with_unreachable_source_state", {})
         self.cov["edges_with_unreachable_source_state"][target] = self.cov["edges_with_unreachable_source_state"].get(target, 0) + st["Unreach"]
         self.judge(target, traces)
